@@ -109,7 +109,8 @@ def run(case):
             out = []
             for c in cells(cl):
                 try:
-                    out.append(c.token if c is not None else None)
+                    out.append(dbh.hashable(c.token)
+                               if c is not None else None)
                 except KeyError:
                     out.append(None)
                 except ConflictError:
